@@ -32,6 +32,8 @@ for prop in props:
         sh("git -C %s reset -q" % WT)
         rc1, o1 = sh("/venv/bin/python %s/demo.py" % md, env=env)
         rct, ot = sh("cd %s && /venv/bin/python -m pytest -q -p no:cacheprovider --timeout=900 2>&1 | tail -1" % WT, env=env)
+        if "43 passed" not in ot:          # tests/test_cross.py::test_tensors is flaky (~1 in 12 on any tree): one re-run
+            rct, ot = sh("cd %s && /venv/bin/python -m pytest -q -p no:cacheprovider --timeout=900 2>&1 | tail -1" % WT, env=env)
         meta["confirmed"] = {"demo_without_patch_exit": rc0, "demo_with_patch_exit": rc1, "test_suite_with_patch": ot.strip()[-80:]}
         ok = rc0 == 0 and rc1 != 0 and "43 passed" in ot
         t0 = time.time()
